@@ -67,6 +67,8 @@ class C13(Prop):
                 c['stop'] = (c['stop'] // DAY) * DAY + 86340
             if rng.random() < 0.15:
                 c['naive'] = True         # start / end handed over without a time zone
+            if rng.random() < 0.3:
+                c['other_first'] = True
             cases.append(c)
         # the schedule a SESSION holds is the schedule of its (start, end) range, whatever its burn-in
         for i in range(60 if tier == 'quick' else 600):
@@ -99,7 +101,7 @@ class C13(Prop):
 
     def judge(self, c, impl, mod):
         j = Judgement()
-        j.key = (c['which'], c['start'], c['stop'], c['pm'], c['weekday'], bool(c.get('naive')))
+        j.key = (c['which'], c['start'], c['stop'], c['pm'], c['weekday'], bool(c.get('naive')), bool(c.get('other_first')))
         valid_wd = c['which'] != 'weekly' or c['weekday'].upper() in WD
         if impl[0] == 'err' or mod[0] == 'err':
             mi = mod[1] if mod[0] == 'err' else 'ok'
